@@ -4,3 +4,4 @@ import TangeloModel.Sem
 import TangeloModel.Sim
 import TangeloModel.Gate
 import TangeloModel.Circuit
+import TangeloModel.Store
